@@ -506,7 +506,8 @@ def minimise(prop, exe, failure, oracle, ref_case_fn, tier):
         def test_rules(keep):
             return fails_with(mk(cur.facts, set(keep), base=cur))
 
-        if len(rule_idx) >= 2 and not cur.meta.get("no_rule_min"):
+        # (a synthesised binary embeds the rules: they are only minimised for interpreter runs, where the text is what is executed)
+        if len(rule_idx) >= 2 and not cur.meta.get("no_rule_min") and not case.binary:
             keptr, _ = ddmin(rule_idx, test_rules, max_runs=40, deadline=deadline)
             cur = mk(cur.facts, set(keptr), base=cur)
         cur.wid = w.wid + ":min"
